@@ -5,7 +5,8 @@ let str_of_bytes (l : n list) : string = String.concat "" (List.map (fun x -> St
 
 let kind_of (s : string) : pkind =
   match s with
-  | "c" -> KCont
+  | "c0" -> KCont false
+  | "c1" -> KCont true
   | "a" -> KAny
   | "f0" -> KLeaf false
   | "f1" -> KLeaf true
@@ -19,7 +20,7 @@ let kind_of (s : string) : pkind =
 let str_of_kind (k : pkind) : string =
   let b x = if x then "1" else "0" in
   match k with
-  | KCont -> "c"
+  | KCont x -> "c" ^ b x
   | KAny -> "a"
   | KLeaf x -> "f" ^ b x
   | KLeafList x -> "T" ^ b x
